@@ -1,0 +1,63 @@
+//go:build verif
+
+package signing
+
+import (
+	abci "github.com/cometbft/cometbft/abci/types"
+
+	sdk "github.com/cosmos/cosmos-sdk/types"
+
+	"github.com/bandprotocol/chain/v3/cylinder/client"
+	"github.com/bandprotocol/chain/v3/cylinder/context"
+	"github.com/bandprotocol/chain/v3/pkg/tss"
+	"github.com/bandprotocol/chain/v3/x/tss/types"
+)
+
+// This file is compiled only with the build tag `verif`. It adds no behaviour to the daemon: it lets an
+// external conformance driver construct the Signing worker with an injected client and run the steps
+// of its loop one at a time, in the caller's goroutine.
+
+// NewVerif mirrors New with an injected client (no node is dialled, nothing is subscribed).
+func NewVerif(ctx *context.Context, cli *client.Client) *Signing {
+	return &Signing{
+		context: ctx,
+		logger:  ctx.Logger.With("worker", "Signing"),
+		client:  cli,
+	}
+}
+
+// VerifHandleSigning runs handleSigning synchronously.
+func (s *Signing) VerifHandleSigning(sid tss.SigningID) {
+	s.handleSigning(sid)
+}
+
+// VerifEventSigningIDs is handleABCIEvents without the `go`: the signing ids for which
+// handleABCIEvents spawns handleSigning, in its order. ok is false where handleABCIEvents logs the
+// parse error and returns (the ids collected before are those already spawned).
+func (s *Signing) VerifEventSigningIDs(abciEvents []abci.Event) (sids []tss.SigningID, ok bool) {
+	events := sdk.StringifyEvents(abciEvents)
+	for _, ev := range events {
+		if ev.Type == types.EventTypeRequestSignature {
+			events, err := ParseEvents(sdk.StringEvents{ev})
+			if err != nil {
+				return sids, false
+			}
+
+			for _, event := range events {
+				sids = append(sids, event.SigningID)
+			}
+		}
+	}
+	return sids, true
+}
+
+// VerifPendingSigningIDs is handlePendingSignings without the `go`: the signing ids for which it
+// spawns handleSigning, in its order; the error is the one it logs before returning.
+func (s *Signing) VerifPendingSigningIDs() ([]tss.SigningID, error) {
+	res, err := s.client.QueryPendingSignings(s.context.Config.Granter)
+	if err != nil {
+		return nil, err
+	}
+
+	return res.PendingSignings, nil
+}
